@@ -9,11 +9,9 @@ import "sync"
 
 type condKey struct{ c *sync.Cond }
 
-var (
-	condWaiters = map[*sync.Cond][]*task{}
-	onceState   = map[*sync.Once]*onceInfo{}
-	wgCount     = map[*sync.WaitGroup]int{}
-)
+// association lists, not maps (see sched.go: map accesses are visible to the
+// race detector even in //go:norace code)
+var condL, onceL, wgL []assoc
 
 type onceInfo struct {
 	running *task
@@ -21,10 +19,15 @@ type onceInfo struct {
 }
 
 //go:norace
-func resetSyncSim() {
-	condWaiters = map[*sync.Cond][]*task{}
-	onceState = map[*sync.Once]*onceInfo{}
-	wgCount = map[*sync.WaitGroup]int{}
+func resetSyncSim() { condL, onceL, wgL = nil, nil, nil }
+
+//go:norace
+func slot(l *[]assoc, key interface{}) *assoc {
+	if i := find(*l, key); i >= 0 {
+		return &(*l)[i]
+	}
+	*l = append(*l, assoc{key: key})
+	return &(*l)[len(*l)-1]
 }
 
 // CondWait replaces c.Wait().
@@ -47,7 +50,8 @@ func CondWait(c *sync.Cond, site string) {
 		c.Wait()
 		return
 	}
-	condWaiters[c] = append(condWaiters[c], t)
+	w := slot(&condL, c)
+	w.ts = append(w.ts, t)
 	l.Unlock()
 	unblock(l)
 	t.blocked = condKey{c}
@@ -68,9 +72,9 @@ func CondSignal(c *sync.Cond, site string) {
 		c.Signal()
 		return
 	}
-	if ws := condWaiters[c]; len(ws) > 0 {
-		ws[0].blocked = nil
-		condWaiters[c] = ws[1:]
+	if w := slot(&condL, c); len(w.ts) > 0 {
+		w.ts[0].blocked = nil
+		w.ts = w.ts[1:]
 	}
 	if t.abort {
 		return
@@ -87,10 +91,11 @@ func CondBroadcast(c *sync.Cond, site string) {
 		c.Broadcast()
 		return
 	}
-	for _, w := range condWaiters[c] {
+	ws := slot(&condL, c)
+	for _, w := range ws.ts {
 		w.blocked = nil
 	}
-	delete(condWaiters, c)
+	ws.ts = nil
 	if t.abort {
 		return
 	}
@@ -108,11 +113,11 @@ func OnceDo(o *sync.Once, f func(), site string) {
 	}
 	handOff(t, site)
 	for {
-		st := onceState[o]
-		if st == nil {
-			st = &onceInfo{}
-			onceState[o] = st
+		sl := slot(&onceL, o)
+		if sl.o == nil {
+			sl.o = &onceInfo{}
 		}
+		st := sl.o
 		if st.done {
 			o.Do(f) // establishes the real happens-before edge, does not call f
 			return
@@ -138,11 +143,14 @@ func OnceDo(o *sync.Once, f func(), site string) {
 func WGAdd(wg *sync.WaitGroup, n int, site string) {
 	wg.Add(n)
 	t := cur
+	// counted also when the controller calls it before Run (state is reset
+	// when a run ends, not when it starts)
+	w := slot(&wgL, wg)
+	w.n += n
 	if t == nil {
 		return
 	}
-	wgCount[wg] += n
-	if wgCount[wg] <= 0 {
+	if w.n <= 0 {
 		unblock(wg)
 	}
 	if t.abort {
@@ -165,7 +173,7 @@ func WGWait(wg *sync.WaitGroup, site string) {
 		return
 	}
 	handOff(t, site)
-	for wgCount[wg] > 0 {
+	for slot(&wgL, wg).n > 0 {
 		t.blocked = wg
 		handOff(t, site)
 	}
